@@ -93,8 +93,17 @@ def iterable_of(xs, kind):
             'iter': lambda: iter(list(xs)), 'dict_keys': lambda: {x: None for x in xs}.keys()}[kind]()
 
 
+class Custom(Exception):
+    pass
+
+
+# what f raises: the property speaks of "an exception raised by f", whatever its class
+EXC = {'KeyError': KeyError, 'StopIteration': StopIteration, 'Custom': Custom, 'OSError': OSError}
+
+
 class PMap(Suite):
     name = 'parallel_map'
+    case_timeout = 10
     imports = 'Par'
     shard = 150
     in_type = '(list Z * nat * bool * nat * list (list nat) * (Z * Z) * list Z)'
@@ -124,6 +133,13 @@ Definition pm_model (c : list Z * nat * bool * nat * list (list nat) * (Z * Z) *
                  which='iter'),
             dict(xs=[7, 3, 5, 9], threads=2, sort=True, chunksize=2, orders=[[1, 0], [1, 0]], a=1, b=0,
                  fails=[9], which='threading'),
+            # f raises StopIteration (a bare next() on an exhausted iterator inside f)
+            dict(xs=[7, 3, 5], threads=2, sort=True, chunksize=1000, orders=[[0, 1, 2]], a=1, b=0,
+                 fails=[3], which='threading', exc='StopIteration'),
+            dict(xs=[7, 3, 5], threads=2, sort=True, chunksize=0, orders=[[0, 1, 2]], a=1, b=0,
+                 fails=[3], which='iter', exc='StopIteration'),
+            dict(xs=[7, 3, 5], threads=1, sort=True, chunksize=1000, orders=[[0, 1, 2]], a=1, b=0,
+                 fails=[3], which='threading', exc='StopIteration'),
         ]
 
     def gen(self, rng, tier):
@@ -143,6 +159,7 @@ Definition pm_model (c : list Z * nat * bool * nat * list (list nat) * (Z * Z) *
             sort = True if which == 'iter' else rng.random() < 0.75
             out.append(dict(xs=xs, threads=threads, sort=sort, chunksize=chunksize, orders=orders,
                             a=rng.choice([1, 2, -3]), b=rng.randrange(-5, 6), fails=fails, which=which,
+                            exc=rng.choice(sorted(EXC)) if fails else 'KeyError',
                             kind=rng.choice(['list', 'list', 'tuple', 'gen', 'iter', 'dict_keys'])))
         return out
 
@@ -161,7 +178,7 @@ Definition pm_model (c : list Z * nat * bool * nat * list (list nat) * (Z * Z) *
                 calls.append(x)
             try:
                 if x in fails:
-                    raise KeyError(x)
+                    raise EXC[case.get('exc', 'KeyError')](x)
                 return a * x + b
             finally:
                 done[x].set()
@@ -187,8 +204,8 @@ Definition pm_model (c : list Z * nat * bool * nat * list (list nat) * (Z * Z) *
                 from taskchain.utils.iter import parallel_map
                 res = parallel_map(f, iterable_of(xs, case.get('kind', 'list')), threads=case['threads'])
             out = dict(result=list(res))
-        except KeyError as e:
-            out = dict(error=e.args[0])
+        except tuple(EXC.values()) as e:
+            out = dict(error=e.args[0], error_type=type(e).__name__)
         finally:
             stop.set()
             for ev in release.values():
@@ -222,8 +239,8 @@ Definition pm_model (c : list Z * nat * bool * nat * list (list nat) * (Z * Z) *
         if fails:
             if 'error' not in obs:
                 return 'an exception raised by f was not propagated'
-            if obs['error'] not in fails:
-                return 'propagated exception is not one raised by f'
+            if obs['error'] not in fails or obs.get('error_type', 'KeyError') != case.get('exc', 'KeyError'):
+                return f'propagated exception {obs.get("error_type")}({obs["error"]}) is not one raised by f'
             return None
         if 'result' not in obs:
             return 'raised although f never raises'
